@@ -110,7 +110,7 @@ static bool wellFormed(const std::string &text)
 }
 
 // runs one document set and applies the weak expectations
-static void runCase(Ctx &c, std::vector<Doc> docs, int mainDoc, bool strict, unsigned stages, const std::string &why, bool bothImporters = true, const char *tag = "")
+static void runCase(Ctx &c, std::vector<Doc> docs, int mainDoc, bool strict, unsigned stages, const std::string &why, bool bothImporters = true, const char *tag = "", bool mustBeClean = false)
 {
     g_ctx = &c;
     std::vector<bool> wf;
@@ -125,6 +125,8 @@ static void runCase(Ctx &c, std::vector<Doc> docs, int mainDoc, bool strict, uns
             if (r.docParserErrors[i] == 0) c.violation("unreported:ill-formed-xml-parsed-without-error", {{"strict", strict}, {"document", safe(docs[i].text, 1500)}});
         }
     }
+    if (mustBeClean && (r.parserErrWarn || ((stages & ST_VALIDATE) && r.validatorErrWarn)))
+        c.violation("generated-valid-model-reported", {{"parser", r.parserErrWarn}, {"validator", r.validatorErrWarn}, {"document", safe(docs[mainDoc].text, 1500)}});
     if (!why.empty() && (stages & ST_VALIDATE)) {
         c.count("weak_oracle_invalid");
         if (r.parserErrWarn + r.validatorErrWarn == 0) c.violation("unreported:" + why, {{"strict", strict}, {"document", safe(docs[mainDoc].text, 1500)}});
@@ -268,7 +270,7 @@ static void runGen(const GenFamily &f, uint64_t i, Ctx &c)
     for (auto &d : g.docs) total += d.text.size();
     if (g.docs[g.mainDoc].text.size() > 65536) { c.outcome("over-64KiB-not-in-domain"); return; }
     c.count("bytes", total);
-    runCase(c, g.docs, g.mainDoc, g.strict, g.stages, g.why, false, g.tag.c_str());
+    runCase(c, g.docs, g.mainDoc, g.strict, g.stages, g.why, false, g.tag.c_str(), g.mustBeClean);
 }
 static json showGen(const GenFamily &f, uint64_t i)
 {
